@@ -46,7 +46,7 @@ static const int VSWEEP[5] = {0, 1, 64, 126, 127};
 static int g_naddr = 3;   // addresses in the alphabet (tier dependent)
 enum { NA = 3, CAP = 2 };
 enum { OP_MAP = 0, OP_UNMAP = 6, OP_CLEAR = 12, OP_CC = 13, OP_DN2R = 19, OP_DR2N = 20, OP_SWEEP = 21, OP_END = 24 };
-enum { K_WATCH = 0, K_BIND = 1, K_OTHER = 2 };
+enum { K_WATCH = 0, K_BIND = 1, K_OTHER = 2, K_UNWATCH = 3 };
 
 struct Emit { bool ok; std::string addr, types; uint32_t u32; };
 struct Snap { int a[NA][2]; bool operator==(const Snap &o) const { return memcmp(a, o.a, sizeof a) == 0; } };
@@ -84,6 +84,8 @@ struct Sys {
         Snap view;                                 // RT side
         int known[NA][2];                          // last 7-bit value sent by the controller of that half, -1 unknown
         bool diverged = false, pruned = false;
+        int rep[3] = {0, 0, 0};                    // fate of the last free-report per controller: 0 none, 1 in flight, 2 answered, 3 ignored
+                                                   // (only names the shape class of a finding; not part of the canon)
         Inst()
         {
             memset(assign.a, -1, sizeof assign.a); memset(view.a, -1, sizeof view.a); memset(known, -1, sizeof known);
@@ -92,6 +94,7 @@ struct Sys {
                 Msg m; size_t len = rtosc_message_length(msg, 1024);
                 m.bytes.assign(msg, len); m.st = nullptr; m.kind = K_OTHER; memset(m.snap.a, -1, sizeof m.snap.a);
                 if(!strcmp(msg, "/midi-learn/midi-add-watch")) m.kind = K_WATCH;
+                else if(!strcmp(msg, "/midi-learn/midi-remove-watch")) m.kind = K_UNWATCH;   // not sent by the library today; harmless for the model
                 else if(!strcmp(msg, "/midi-learn/midi-bind") && !strcmp(rtosc_argument_string(msg), "b") && rtosc_argument(msg, 0).b.len == sizeof(void *)) {
                     m.kind = K_BIND; m.st = *(rtosc::MidiMapperStorage **)rtosc_argument(msg, 0).b.data; allst.push_back(m.st);
                 }
@@ -205,7 +208,7 @@ struct Sys {
         int binds = 0;
         for(size_t i = n0; i < I.n2r.size(); ++i) {
             if(I.n2r[i].kind == K_BIND) { I.n2r[i].snap = I.assign; ++binds; }
-            if(I.n2r[i].kind == K_OTHER) { bad(I, check, std::string("protocol|") + site + "|unknown-message-to-rt", "message '" + vp::show(I.n2r[i].bytes.substr(0, 40)) + "'"); return false; }
+            // other messages to the realtime side are carried and delivered like any other (the delivery must be understood)
         }
         if(changed && !binds) { bad(I, check, std::string("snapshot-not-sent|") + site + "|" + shape, "the assignment changed to " + show_snap(I.assign) + " but no midi-bind was sent to the realtime side"); return false; }
         return true;
@@ -265,19 +268,18 @@ struct Sys {
         const bool forbidden = use_in_flight || assigned_nrt;
         const int announced = std::max(0, (int)I.fifo.size() - I.watches_in_flight());
         const bool required = !forbidden && !bind_in_flight && announced - (int)r0 > 0;
-        if(emitted && forbidden) {
-            bad(I, check, std::string("free-report-duplicated|") + site + "|" + (use_in_flight ? "report-still-in-flight" : "assignment-still-in-flight"),
-                "controller " + std::to_string(id) + " was reported free again although " + (use_in_flight ? "its previous report has not been read by the non-realtime side yet" : "the non-realtime side has already assigned it: " + show_snap(I.assign)) +
-                "; realtime view " + show_snap(I.view));
-            return false;
-        }
         if(!emitted && required) {
-            bad(I, check, std::string("free-report-missing|") + site + "|queued-address-announced",
+            int r = 0; for(int x = 0; x < 3; ++x) if(IDS[x] == id) r = I.rep[x];
+            bad(I, check, std::string("free-report-missing|") + site + "|" + (r == 3 ? "previous-report-was-ignored" : r == 2 ? "previous-report-was-answered" : r == 1 ? "previous-report-lost" : "never-reported"),
                 "controller " + std::to_string(id) + " is assigned nowhere, " + std::to_string(announced) + " queued address(es) announced to the realtime side, " + std::to_string(r0) + " report(s) in flight, but it was not reported free; pending=" +
                 std::to_string(I.rt.pending.size) + " watchSize=" + std::to_string(I.rt.watchSize));
             return false;
         }
-        if(check) vp::outcome(std::string("cc-unassigned:") + (emitted ? "reported-free" : "silent") + (required ? ":required" : forbidden ? ":forbidden" : ":optional"));
+        // A report while the previous report of the same controller (or its assignment) is still in flight is not
+        // flagged here: the statement speaks about assignments, and the consequence is checked where the report is
+        // delivered (a controller must not end up assigned to a second address).
+        if(emitted) for(int x = 0; x < 3; ++x) if(IDS[x] == id) I.rep[x] = 1;
+        if(check) vp::outcome(std::string("cc-unassigned:") + (emitted ? "reported-free" : "silent") + (required ? ":required" : forbidden ? (use_in_flight ? ":report-in-flight" : ":assignment-in-flight") : ":optional"));
         return true;
     }
 
@@ -337,7 +339,7 @@ struct Sys {
                 I.view = m.snap;
             }
             if(!I.backend.empty() || I.r2n.size() != r0) { bad(I, check, std::string("protocol|deliver-n2r|") + (m.kind == K_BIND ? "bind" : "watch") + "-emits-messages", "delivery produced " + show_msgs(I.backend) + " and " + std::to_string(I.r2n.size() - r0) + " frontend messages"); return; }
-            if(check) vp::outcome(m.kind == K_BIND ? "deliver:bind" : "deliver:watch");
+            if(check) vp::outcome(m.kind == K_BIND ? "deliver:bind" : m.kind == K_WATCH ? "deliver:watch" : "deliver:remove-watch");
         } else if(op == OP_DR2N) {
             if(I.r2n.empty()) return;
             Msg m = I.r2n.front(); I.r2n.pop_front();
@@ -345,8 +347,17 @@ struct Sys {
             if(id == -1000) { bad(I, check, "protocol|deliver-r2n|unknown-message", "'" + vp::show(m.bytes.substr(0, 32)) + "'"); return; }
             I.nrt.useFreeID(id);
             bool changed = false; const char *shape = "queue-empty";
+            for(int x = 0; x < 3; ++x) if(IDS[x] == id) I.rep[x] = I.fifo.empty() ? 3 : 2;
             if(!I.fifo.empty()) {
-                if(I.snap_has(I.assign, id)) { I.pruned = true; if(check) vp::outcome("dontcare:free-report-of-an-assigned-controller-delivered:pruned"); return; }
+                if(I.snap_has(I.assign, id)) {
+                    // the reported controller has been assigned in the meantime: it is not "a not yet assigned controller"
+                    // any more. Whatever else happens, it must not be given to a second address (one controller event
+                    // produces exactly one message, so one of the two addresses would never be driven).
+                    int n = 0; std::string where;
+                    for(int a = 0; a < NA; ++a) { if(I.nrt.getCoarse(PORT[a].path) == id) { ++n; where += std::string(PORT[a].path) + ":coarse "; } if(I.nrt.getFine(PORT[a].path) == id) { ++n; where += std::string(PORT[a].path) + ":fine "; } }
+                    if(n > 1) { bad(I, check, "double-assignment|useFreeID|controller-already-assigned", "controller " + std::to_string(id) + " was already assigned (" + show_snap(I.assign) + ") when a second free-report for it was delivered; it is now assigned to " + where); return; }
+                    I.pruned = true; if(check) vp::outcome("dontcare:free-report-of-an-assigned-controller-delivered:pruned"); return;
+                }
                 auto h = I.fifo.front(); I.fifo.pop_front();
                 I.assign.a[h.first][h.second] = id; changed = true;
                 shape = h.second == 0 ? "learn-coarse" : "learn-fine";
@@ -358,7 +369,7 @@ struct Sys {
             int id = IDS[op - OP_SWEEP]; double prev = 0; bool have = false; std::string row;
             for(int j = 0; j < 5; ++j) {
                 double num = 0; bool assigned = false;
-                if(!do_cc(I, true, id, VSWEEP[j], "handleCC-sweep", &num, &assigned)) return;
+                if(!do_cc(I, true, id, VSWEEP[j], "handleCC", &num, &assigned)) return;
                 if(!assigned) continue;
                 row += (have ? "," : "") + fstr(num);
                 if(have && num < prev) {
@@ -460,6 +471,14 @@ int main(int argc, char **argv)
                           "probe in every state: CC(id, v) for v = 0,1,64,126,127 in sequence for every id");
     vp::bound("addresses", (long long)g_naddr);
     vp::bound("channel_cap", "at most 2 messages in flight per channel; events that would exceed it are not enabled");
+    // Start also from prepared operating points (replayed with the oracle on): with one binding per 5 events the
+    // initial state alone never reaches several bindings within the depth bound.
+    auto learn = [](bfs::Hist &h, int addr, int half, int idx, int vi) { h.push_back(OP_MAP + addr * 2 + half); h.push_back(OP_DN2R); h.push_back(OP_CC + idx * 2 + vi); h.push_back(OP_DR2N); h.push_back(OP_DN2R); };
+    { bfs::Hist h; learn(h, 0, 0, 0, 1); E.roots.push_back(h); }                                          // /p <- 1
+    { bfs::Hist h; learn(h, 2, 0, 0, 1); learn(h, 2, 1, 1, 1); E.roots.push_back(h); }                      // /r coarse <- 1, fine <- 2
+    { bfs::Hist h; learn(h, 0, 0, 0, 1); learn(h, 1, 0, 1, 0); learn(h, 2, 0, 2, 1); E.roots.push_back(h); } // /p <- 1, /q <- 2, /r <- 3
+    { bfs::Hist h; learn(h, 0, 0, 0, 1); h.push_back(OP_MAP + 2); h.push_back(OP_MAP + 4); h.push_back(OP_DN2R); h.push_back(OP_DN2R); E.roots.push_back(h); } // /p <- 1; /q, /r queued and announced
+    vp::bound("roots", "initial state + 4 prepared states: {/p<-1}, {/r coarse<-1, fine<-2}, {/p<-1,/q<-2,/r<-3}, {/p<-1; /q and /r queued and announced}");
     E.run();
     return vp::finish();
 }
